@@ -426,6 +426,9 @@ func (w *World) materialise(it Intent, h int64, idx int, sc *blockScratch) *TxPl
 		p.finish()
 		return p
 	}
+	if (it.Kind == "setdoc" || it.Kind == "unstake" || it.Kind == "vote" || it.Kind == "proposal") && it.Amt != "" && amt != nil {
+		tx.Amount = u256(amt) // an amount on a tx type that moves none
+	}
 	tx.Time = w.Tr.Genesis.TimeUnix*1_000_000_000 + h*1_000_000 + int64(idx)
 	if it.ToRaw != "" {
 		if b, err := hex.DecodeString(it.ToRaw); err == nil {
